@@ -1979,3 +1979,251 @@ func TestVerifReplay(t *testing.T) {
 `
 	return "kvstore", ".", src, true
 }
+
+// ---------- C13 (reactive subscribers) ----------
+func init() { replayGens["c13"] = replayC13 }
+
+func replayC13(o *Obligation) (string, string, string, bool) {
+	if !strings.HasPrefix(o.Name, "reactive.") {
+		return "", "", "", false
+	}
+	src := `package reactive
+
+import (
+	"math/rand"
+	"sync"
+	"sync/atomic"
+	"testing"
+	"time"
+
+	"github.com/iotaledger/hive.go/ds"
+)
+
+// oracle: a subscriber sees the state at subscription time and then every change exactly once and in order (each
+// previous value is the preceding new value, the last one is the final value; folding reported set mutations strictly -
+// added only when absent, deleted only when present - reproduces the contents), callbacks of one subscription never
+// overlap and none starts after its unsubscribe call has returned.
+func TestVerifReplay(t *testing.T) {
+	fail := func(format string, a ...any) { t.Fatalf("REPLAY-VIOLATION "+format, a...) }
+
+	// (1) Replace with elements that stay: a mirror that applies the reported mutations, and a derived set
+	{
+		s := NewSet[int]()
+		s.AddAll(ds.NewSet(1, 2))
+		mirror := ds.NewSet[int]()
+		s.OnUpdate(func(m ds.SetMutations[int]) { mirror.Apply(m) })
+		d := NewDerivedSet[int]()
+		d.InheritFrom(s)
+		s.Replace(ds.NewSet(2, 3))
+		if !mirror.Has(2) || !mirror.Has(3) || mirror.Has(1) || mirror.Size() != 2 {
+			fail("set {1,2}.Replace({2,3}): folding the reported mutations gives %v, the set holds %v", mirror.ToSlice(), s.ToSlice())
+		}
+		if !d.Has(2) || !d.Has(3) || d.Size() != 2 {
+			fail("set {1,2}.Replace({2,3}): the DerivedSet inheriting from it holds %v, the set holds %v", d.ToSlice(), s.ToSlice())
+		}
+	}
+
+	// (2) sequential histories of a set: strict fold of the reports == contents, for subscribers joining at any time
+	{
+		rng := rand.New(rand.NewSource(1))
+		for round := 0; round < 200; round++ {
+			s := NewSet[int]()
+			type sub struct {
+				mirror map[int]bool
+				unsub  func()
+				live   bool
+			}
+			var subs []*sub
+			check := func(what string) {
+				for i, sb := range subs {
+					if !sb.live {
+						continue
+					}
+					if len(sb.mirror) != s.Size() {
+						fail("round %d after %s: subscriber %d folded %d elements, the set holds %v", round, what, i, len(sb.mirror), s.ToSlice())
+					}
+					for e := range sb.mirror {
+						if !s.Has(e) {
+							fail("round %d after %s: subscriber %d folded element %d which the set does not hold (%v)", round, what, i, e, s.ToSlice())
+						}
+					}
+				}
+			}
+			for step := 0; step < 12; step++ {
+				switch rng.Intn(6) {
+				case 0:
+					sb := &sub{mirror: map[int]bool{}, live: true}
+					idx := len(subs)
+					sb.unsub = s.OnUpdate(func(m ds.SetMutations[int]) {
+						if !sb.live {
+							fail("round %d: callback of subscriber %d ran after its unsubscribe returned", round, idx)
+						}
+						m.AddedElements().Range(func(e int) {
+							if sb.mirror[e] {
+								fail("round %d: element %d reported as added to subscriber %d which already has it", round, e, idx)
+							}
+							sb.mirror[e] = true
+						})
+						m.DeletedElements().Range(func(e int) {
+							if !sb.mirror[e] {
+								fail("round %d: element %d reported as deleted to subscriber %d which does not have it", round, e, idx)
+							}
+							delete(sb.mirror, e)
+						})
+					})
+					subs = append(subs, sb)
+					check("OnUpdate")
+				case 1:
+					s.Add(rng.Intn(5))
+					check("Add")
+				case 2:
+					s.Delete(rng.Intn(5))
+					check("Delete")
+				case 3:
+					s.Replace(ds.NewSet(rng.Intn(5), rng.Intn(5)))
+					check("Replace")
+				case 4:
+					s.Apply(ds.NewSetMutations(rng.Intn(5)).WithDeletedElements(ds.NewSet(rng.Intn(5))))
+					check("Apply")
+				case 5:
+					if len(subs) > 0 {
+						sb := subs[rng.Intn(len(subs))]
+						if sb.live {
+							sb.unsub()
+							sb.live = false
+						}
+					}
+				}
+			}
+		}
+	}
+
+	// (3) variables under concurrency: per subscriber the (prev,new) chain is unbroken, callbacks do not overlap, none
+	// starts after unsubscribe returned, the last reported value is the final value
+	{
+		for round := 0; round < 30; round++ {
+			v := NewVariable[int]()
+			var wg sync.WaitGroup
+			var stopWriters atomic.Bool
+			for w := 0; w < 3; w++ {
+				wg.Add(1)
+				go func(w int) {
+					defer wg.Done()
+					for i := 1; !stopWriters.Load(); i++ {
+						v.Compute(func(cur int) int { return cur + 1 })
+					}
+				}(w)
+			}
+			type rec struct {
+				last     int
+				n        int
+				running  atomic.Int32
+				unsubbed atomic.Bool
+				bad      atomic.Value
+			}
+			var recs []*rec
+			var unsubs []func()
+			for sIdx := 0; sIdx < 6; sIdx++ {
+				r := &rec{}
+				recs = append(recs, r)
+				unsubs = append(unsubs, v.OnUpdate(func(prev, cur int) {
+					if r.running.Add(1) != 1 {
+						r.bad.Store("two callbacks of one subscription ran concurrently")
+					}
+					if r.unsubbed.Load() {
+						r.bad.Store("a callback started after unsubscribe had returned")
+					}
+					if r.n == 0 && prev != 0 {
+						r.bad.Store("the first report does not start from the zero value")
+					}
+					if r.n > 0 && prev != r.last {
+						r.bad.Store("previous value of a report differs from the new value of the preceding report")
+					}
+					r.last, r.n = cur, r.n+1
+					r.running.Add(-1)
+				}, true))
+				time.Sleep(200 * time.Microsecond)
+			}
+			for i := 0; i < 3; i++ {
+				unsubs[i]()
+				recs[i].unsubbed.Store(true)
+			}
+			time.Sleep(time.Millisecond)
+			stopWriters.Store(true)
+			wg.Wait()
+			final := v.Get()
+			for i, r := range recs {
+				if b := r.bad.Load(); b != nil {
+					fail("round %d subscriber %d: %s", round, i, b.(string))
+				}
+				if i >= 3 && r.last != final {
+					fail("round %d subscriber %d: last reported value %d, final value %d", round, i, r.last, final)
+				}
+			}
+		}
+	}
+
+	// (4) sets under concurrency: strict fold per subscriber equals the final contents
+	{
+		for round := 0; round < 30; round++ {
+			s := NewSet[int]()
+			var wg sync.WaitGroup
+			var stopWriters atomic.Bool
+			for w := 0; w < 3; w++ {
+				wg.Add(1)
+				go func(w int) {
+					defer wg.Done()
+					rng := rand.New(rand.NewSource(int64(round*10 + w)))
+					for !stopWriters.Load() {
+						switch rng.Intn(3) {
+						case 0:
+							s.Add(rng.Intn(6))
+						case 1:
+							s.Delete(rng.Intn(6))
+						case 2:
+							s.Replace(ds.NewSet(rng.Intn(6), rng.Intn(6)))
+						}
+					}
+				}(w)
+			}
+			type rec struct {
+				mirror map[int]bool
+				bad    atomic.Value
+			}
+			var recs []*rec
+			for sIdx := 0; sIdx < 4; sIdx++ {
+				r := &rec{mirror: map[int]bool{}}
+				recs = append(recs, r)
+				s.OnUpdate(func(m ds.SetMutations[int]) {
+					m.AddedElements().Range(func(e int) {
+						if r.mirror[e] {
+							r.bad.Store("an element was reported as added that the subscriber already has")
+						}
+						r.mirror[e] = true
+					})
+					m.DeletedElements().Range(func(e int) {
+						if !r.mirror[e] {
+							r.bad.Store("an element was reported as deleted that the subscriber does not have")
+						}
+						delete(r.mirror, e)
+					})
+				})
+				time.Sleep(200 * time.Microsecond)
+			}
+			time.Sleep(time.Millisecond)
+			stopWriters.Store(true)
+			wg.Wait()
+			for i, r := range recs {
+				if b := r.bad.Load(); b != nil {
+					fail("round %d set subscriber %d: %s", round, i, b.(string))
+				}
+				if len(r.mirror) != s.Size() {
+					fail("round %d set subscriber %d: folded %d elements, the set holds %v", round, i, len(r.mirror), s.ToSlice())
+				}
+			}
+		}
+	}
+}
+`
+	return "ds", "reactive", src, true
+}
